@@ -27,6 +27,11 @@ pub struct HashBus {
     pub reads: Vec<u32>,
     pub log_reads: bool,
     pub waits: Vec<u32>,
+    pub noncanon: bool,
+}
+
+pub fn is_canonical(a: u32) -> bool {
+    a <= 0x000F_FFFF || (0x10_0000..0x10_0100).contains(&a)
 }
 
 impl HashBus {
@@ -38,6 +43,7 @@ impl HashBus {
             reads: Vec::new(),
             log_reads: false,
             waits: Vec::new(),
+            noncanon: false,
         }
     }
     pub fn peek(&self, a: u32) -> u8 {
@@ -55,6 +61,9 @@ impl LlamaBus for HashBus {
         let mut v: u32 = 0;
         for i in 0..bytes {
             let a = addr.wrapping_add(i);
+            if !is_canonical(a) {
+                self.noncanon = true;
+            }
             if self.log_reads {
                 self.reads.push(canon(a));
             }
@@ -65,6 +74,9 @@ impl LlamaBus for HashBus {
     fn store(&mut self, addr: u32, bits: u8, value: u32) {
         let bytes = ((bits as u32) + 7) / 8;
         for i in 0..bytes {
+            if !is_canonical(addr.wrapping_add(i)) {
+                self.noncanon = true;
+            }
             let c = canon(addr.wrapping_add(i));
             let b = ((value >> (8 * i)) & 0xFF) as u8;
             self.over.insert(c, b);
@@ -226,6 +238,7 @@ fn run_one(sessions: &mut CpuSessions, req: &Value) -> Value {
         sess.bus.writes.clear();
         sess.bus.reads.clear();
         sess.bus.waits.clear();
+        sess.bus.noncanon = false;
         let pc = sess.state.pc();
         let opcode = (sess.bus.peek(pc)) as u8;
         let r = std::panic::catch_unwind(std::panic::AssertUnwindSafe(|| {
@@ -265,6 +278,9 @@ fn run_one(sessions: &mut CpuSessions, req: &Value) -> Value {
                 "reads".into(),
                 Value::Array(sess.bus.reads.iter().map(|a| json!(a)).collect()),
             );
+        }
+        if sess.bus.noncanon {
+            step.insert("noncanon".into(), json!(true));
         }
         if !sess.bus.waits.is_empty() {
             step.insert("waits".into(), json!(sess.bus.waits));
